@@ -161,7 +161,36 @@ def strategy_spawn(draw, tier):
     return case
 
 
+def enum_huge(tier, shard, nshards):
+    if shard == 0:
+        yield {'rows': 5, 'n': 1700000, 'n_jobs': 2}          # 68 MB of float64 in one call
+
+
+def check_huge(case, rec):
+    """one call on more than 64 MiB of data with a per-row option list and fewer workers than rows (implementations that hand the
+    rows to the pool in several passes must keep rows and options aligned across the passes)"""
+    rows, n, fs, fr = case['rows'], case['n'], 500, (3.0, 5.0)
+    t = np.arange(n) / fs
+    X = np.array([np.sin(2 * np.pi * (3.6 + 0.2 * i) * t) * (1 + 0.6 * np.sin(2 * np.pi * (0.031 + 0.007 * i) * t)) + 0.2 * np.sin(2 * np.pi * 17.3 * t + i) for i in range(rows)])
+    opts = [{'center_extrema': ['peak', 'trough'][i % 2], 'threshold_kwargs': {'amp_fraction_threshold': 0.1 * i, 'amp_consistency_threshold': 0.3 + 0.1 * i,
+             'period_consistency_threshold': 0.5, 'monotonicity_threshold': 0.6, 'min_n_cycles': 1 + i % 3}} for i in range(rows)]
+    with warnings.catch_warnings():
+        warnings.simplefilter('ignore')
+        out = with_timeout(lambda: guarded(compute_features_2d, X, fs, fr, compute_features_kwargs=gen.copy_json(opts), axis=0, n_jobs=case['n_jobs']), 1500)
+        if not isinstance(out, list) or len(out) != rows:
+            raise Violation('result-length', 'huge array: %s' % type(out).__name__)
+        for i in range(rows):
+            want = gc.isolated(gc.reference, X[i], fs, fr, gen.copy_json(opts[i]), return_samples=True)
+            ok, why = ref.frames_equal(out[i].reset_index(drop=True), want.reset_index(drop=True))
+            if not ok:
+                raise Violation('row-result-differs', 'huge array (%d x %d float64, n_jobs=%d): position %d: %s' % (rows, n, case['n_jobs'], i, why))
+    rec.label('huge-array:%dMB' % (X.nbytes // 2 ** 20))
+    rec.nontrivial(True)
+
+
 PARTS = [Part('group-2d', check, strategy=strategy, budget={'quick': 320, 'thorough': 6000}, shards={'quick': 16, 'thorough': 16},
               time_cap={'quick': 200, 'thorough': 3000}),
+         Part('huge-array', check_huge, enum=enum_huge, shards={'quick': 1, 'thorough': 1}, exhaustive=True,
+              time_cap={'quick': 600, 'thorough': 2400}),
          Part('spawned-workers', check, strategy=strategy_spawn, budget={'quick': 24, 'thorough': 400}, shards={'quick': 8, 'thorough': 16},
               time_cap={'quick': 200, 'thorough': 2400})]
